@@ -769,11 +769,33 @@ def tree_fingerprint() -> str:
 	return h.hexdigest()
 
 
+def snapshot_repo(ctx: Ctx) -> bool:
+	"""Run against a private copy of the tree under test, so that commits to it during the run cannot make the in-process
+	sessions and the fresh subprocesses see different code. Only possible before any tranp module is imported."""
+	if any(name == 'rogw' or name.startswith('rogw.') for name in sys.modules):
+		return False
+	src = common.REPO
+	for _ in range(3):
+		before = tree_fingerprint()
+		dst = os.path.join(ctx.tmpdir('c04-repo-'), 'repo')
+		shutil.copytree(src, dst, ignore=shutil.ignore_patterns('.git', '.cache', '__pycache__', 'tests'))
+		if tree_fingerprint() == before:
+			sys.path[:] = [dst if os.path.abspath(p) == os.path.abspath(src) else p for p in sys.path]
+			if dst not in sys.path:
+				sys.path.insert(0, dst)
+			os.chdir(dst)
+			common.REPO = dst
+			ctx.notes.append(f'ran against a snapshot of {src} taken at the start of the run')
+			return True
+	return False
+
+
 def run(ctx: Ctx) -> int:
-	return run_checked(ctx, tree_fingerprint())
+	snap = snapshot_repo(ctx)
+	return run_checked(ctx, None if snap else tree_fingerprint())
 
 
-def run_checked(ctx: Ctx, before: str) -> int:
+def run_checked(ctx: Ctx, before: str | None) -> int:
 	proof = common.prove(ctx, PROP, leanchecker=ctx.thorough)
 	try:
 		prelude(ctx)
@@ -798,7 +820,7 @@ def run_checked(ctx: Ctx, before: str) -> int:
 			search_interactive(ctx),
 			search_runner(ctx),
 		]
-	if tree_fingerprint() != before:
+	if before is not None and tree_fingerprint() != before:
 		raise common.InfraError(f'{common.REPO} changed while the check was running: session and fresh-process results are not comparable, run again')
 	return common.finish(ctx, proof, streams, searches, statements=STATEMENTS, partial=PARTIAL, assumptions=ASSUMPTIONS,
 		trusted=['the fresh-process oracle forks before any tranp object exists; module import itself is assumed to create no session state'])
